@@ -20,6 +20,7 @@ from lib.ctx import MachineryError
 HERE = os.path.dirname(os.path.dirname(os.path.abspath(__file__)))
 
 SEEN = set()
+STATS = {}
 
 def plans_from_tlc(out):
     plans = []
@@ -78,6 +79,9 @@ def run_workers(ctx, mode, items, nproc, label):
                         d = json.loads(line)
                     except ValueError:
                         continue
+                    if "stats" in d:
+                        for k, v in d["stats"].items():
+                            STATS[k] = STATS.get(k, 0) + v
                     if "begin" in d: begun = d["begin"]
                     if "done" in d: done[d["done"]] = d["res"]
             for n, i in enumerate(idxs):
@@ -124,11 +128,13 @@ def replay_index(ctx, plans, label, nproc=4):
     if len(res) != len(plans) and not bad:
         raise MachineryError("replay %s: %d of %d plans accounted for" % (label, len(res), len(plans)))
     ctx.add_traces(len(plans))
-    ctx.log("replayed %d plans / %d calls (%s): %d differ" % (len(plans), sum(len(p) for p in plans), label, bad))
+    ctx.log("replayed %d plans / %d calls (%s): %d differ; injected allocation failures so far: %d" % (
+        len(plans), sum(len(p) for p in plans), label, bad, STATS.get("memerrs", 0)))
 
 
 # ------------------------------------------------------------------ file-info
 XZSEEN = set()
+STATS = {}
 CHECKNAME = {0: "None", 1: "CRC32", 4: "CRC64", 10: "SHA-256"}
 
 def make_files(ctx, nfiles, ndamaged):
